@@ -59,9 +59,17 @@ func isStringField(f string) bool {
 
 // obs performs the observation sweep and emits one "obs" event.
 func (r *Runner) obs(afterFail, light bool) {
+	r.recs, r.recIdx = []Vals{}, map[string]int{}
+	e := r.obsBody(afterFail, light)
+	e["recs"] = r.recs
+	r.emit(e)
+}
+
+// obsBody performs the sweep on r.db and returns the event body; record ids
+// refer to the current r.recs table (the caller attaches it).
+func (r *Runner) obsBody(afterFail, light bool) ev {
 	e := ev{"ev": "obs", "after_fail": afterFail, "async": r.cfg.Async}
 	proto := r.proto()
-	r.recs, r.recIdx = []Vals{}, map[string]int{}
 
 	// All
 	objs, err := r.db.All(proto)
@@ -157,8 +165,7 @@ func (r *Runner) obs(afterFail, light bool) {
 	}
 	e["control"] = classify(r.db.Control())
 	e["dir"] = r.walk()
-	e["recs"] = r.recs
-	r.emit(e)
+	return e
 }
 
 // recID interns the projection of an object in the per-event table "recs"
